@@ -82,6 +82,32 @@ func (fr *Frame) step(ins ssa.Instruction, st *State, pc Term) bool {
 	case *ssa.Slice:
 		fr.env[x] = fr.sliceOp(x, st, pc)
 	case *ssa.SliceToArrayPointer:
+		// (*[N]T)(s): panics unless len(s) >= N; the result designates the first N elements of s. It is modelled
+		// as a fresh array object holding those elements (reads are exact; writes through the pointer would not
+		// reach the slice - noted)
+		sv, okS := fr.val(x.X).(SliceV)
+		at, okA := x.Type().Underlying().(*types.Pointer).Elem().Underlying().(*types.Array)
+		if okS && okA {
+			if _, _, sc := isScalarLeaf(at.Elem()); sc && at.Len() <= 64 {
+				n := at.Len()
+				u.oblige(fr, "slice-to-array", x.Pos(), "", pc, Ge(sv.Len, IntLit(n)))
+				src := PtrV{Base: sv.Arr, Obj: at.Elem(), Arr: true}
+				lf := leaves(at.Elem())[0]
+				name, _ := compName(src, lf.Path)
+				comp := m.comp(st, name, m.compSort(true, lf.Sort))
+				oldInner := Select(comp, sv.Arr)
+				ni := u.c.Fresh("arrptr", ArrSort(SInt, lf.Sort))
+				for i := int64(0); i < n; i++ {
+					u.c.Assume(Eq(Select(ni, IntLit(i)), Select(oldInner, ElemIdx(sv.Off, IntLit(i)))))
+				}
+				arr := m.Alloc(st, "arrptr")
+				dst := PtrV{Base: arr, Obj: at.Elem(), Arr: true}
+				m.StoreVal(st, dst, Scalar{ni})
+				u.c.Note("slice-to-array-pointer conversion modelled as a copy of the first N elements")
+				fr.env[x] = dst
+				return true
+			}
+		}
 		u.unsupportedf("SliceToArrayPointer in %s", fr.fn.Name())
 		fr.env[x] = m.FreshValue(st, "s2ap", x.Type())
 	case *ssa.FieldAddr:
@@ -118,6 +144,7 @@ func (fr *Frame) step(ins ssa.Instruction, st *State, pc Term) bool {
 		mv := fr.val(x.Map).(Scalar).T
 		u.oblige(fr, "nil-map-write", x.Pos(), "", pc, Ne(mv, IntLit(0)))
 		mt := x.Map.Type().Underlying().(*types.Map)
+		u.frameCheckMap(fr, pc, mt, mv, x.Pos())
 		u.mapStore(st, mt, mv, fr.val(x.Key), fr.val(x.Value))
 	case *ssa.Range:
 		fr.env[x] = fr.rangeInit(x, st)
